@@ -11,8 +11,12 @@
 //! NaN bit patterns are canonicalised (0x7ff8000000000000 / 0x7fc00000).
 //!
 //! Oracle stream (`robotics.oracle.jsonl`, implementation only): every evaluation runs under
-//! `catch_unwind` with a time check (panic / slow = failure), and every text the plain path accepts
-//! must give the same bits with the option switched on (tags other than `!degrees`).
+//! `catch_unwind` with a time check (panic / slow = failure), every text the plain path accepts
+//! must give the same bits with the option switched on (tags other than `!degrees`; f64 and f32), the
+//! call site must be "plain reading, else evaluator", and the public API must agree with the hook.
+//! Since the repairs bebcb49 / 78f916b no failure class is expected: the former finding witnesses
+//! (`123é`, `1.00000005960464477540` as f32, `infinity`, U+00A0-wrapped literals, 1000001 digits) are in
+//! the fixed corpora and would be reported again under their old ids.
 use crate::proto::*;
 use crate::Args;
 use serde_saphyr::verif_hooks::robotics as h;
@@ -896,15 +900,21 @@ fn generate(a: &Args) -> i32 {
                 let r32 = eval32(&mut or, s, tag);
                 sink.case(&format!("robotics eval32 {tag} {hx}"), &r32);
             }
-            // call site consistency (implementation only): option on == the evaluator, for f64 and f32
+            // call site consistency (implementation only): with the option on the result is the plain reading
+            // when that succeeds and the tag is not !degrees, the evaluator otherwise
             if idx < n_random && idx % 3 == 0 {
                 or.checks += 1;
                 let on = site64(&mut or, s, tag, true);
-                let exp = r.strip_prefix("ok ").map(|x| x.to_string());
+                let off = site64(&mut or, s, tag, false);
+                let exp: Option<String> = match (&off, tag) {
+                    (Ok(Some(v)), t) if t != 11 => Some(v.to_string()),
+                    _ => r.strip_prefix("ok ").map(|x| x.to_string()),
+                };
                 let got = match &on { Ok(Some(v)) => Some(v.to_string()), _ => None };
-                if !r.starts_with("panic") && exp != got {
-                    or.fail("C19-call-site-differs", "parse_yaml12_float(.., angle_conversions = true) must be the evaluator", s,
-                            &format!("{on:?}"), &r);
+                let fast = matches!((&off, tag), (Ok(Some(_)), t) if t != 11);
+                if (fast || !r.starts_with("panic")) && exp != got {
+                    or.fail("C19-call-site-differs", "parse_yaml12_float(.., angle_conversions = true) must be the plain reading (tag != !degrees) or else the evaluator", s,
+                            &format!("{on:?}"), &format!("plain: {off:?}, evaluator: {r}"));
                 }
             }
         }
